@@ -103,7 +103,7 @@ def claim_packet(kind, src):
     return (wire.actisense_line(6, 60928, src, 255, data) + "\r\n").encode()
 
 
-def fault_session(kind, fault, step, settle=40.0, scb="ok", second=None, mapping=False):
+def fault_session(kind, fault, step, settle=40.0, scb="ok", second=None, mapping=False, bystander=False):
     """second = (fault kind, virtual seconds after the start) injects another fault after the first recovery."""
     info = {"injected": False, "inject_step": None, "inject_time": None, "conn_at_fault": None, "second_injected": False}
 
@@ -168,8 +168,9 @@ def fault_session(kind, fault, step, settle=40.0, scb="ok", second=None, mapping
                 c.feed(packet(kind, 200 + c.id))
         await asyncio.sleep(1.0)
         info["elapsed"] = loop.time() - 1000.0
+        info["ticks"] = sim.heartbeat_ticks
         await sim.call("close")
-    sim, stats = simgw.run_session(kind, scenario, status_cb=scb, client_kwargs={"build_network_map": True} if mapping else None)
+    sim, stats = simgw.run_session(kind, scenario, status_cb=scb, client_kwargs={"build_network_map": True} if mapping else None, bystander=bystander)
     return sim, stats, info
 
 
@@ -229,8 +230,9 @@ def check_recovery(sim, stats, info, acc, kind, fault, step, scb="ok"):
         else:
             acc.count("second_recoveries_checked")
     exp_ticks = int(info["elapsed"] / 0.1)
-    if abs(sim.heartbeat_ticks - exp_ticks) > 3:
-        acc.violation("heartbeat-starved", f"{kind}: heartbeat ticked {sim.heartbeat_ticks} times in {info['elapsed']:.1f} virtual s", w)
+    ticks = info.get("ticks", sim.heartbeat_ticks)
+    if abs(ticks - exp_ticks) > 3:
+        acc.violation("heartbeat-starved", f"{kind}: heartbeat ticked {ticks} times in {info['elapsed']:.1f} virtual s", w)
     acc.count("recoveries_checked")
     acc.cover("faults", f"{kind}/{fault}")
     if step % 9 == 0:
@@ -476,8 +478,11 @@ def run_shard(spec, acc):
     if kind == "actisense":
         seconds = ["reset", "eof"]
     for k_, step in enumerate(steps):
-        sim, stats, info = fault_session(kind, fault, step, scb=scb, mapping=mapping, settle=50.0 if fault == "busy_reply" else 40.0)
+        by = k_ % 3 == 2            # every third session: an untouched second client in the same process must not notice anything
+        sim, stats, info = fault_session(kind, fault, step, scb=scb, mapping=mapping, settle=50.0 if fault == "busy_reply" else 40.0, bystander=by)
         check_recovery(sim, stats, info, acc, kind, fault, step, scb)
+        if by and sim is not None and not stats["error"]:
+            simgw.judge_bystander(sim, acc, {"client": kind, "fault": fault, "step": step, "status_cb": scb})
         if mapping or fault == "busy_reply":
             continue
         if not quick or k_ % 4 == 0:
